@@ -1,10 +1,30 @@
 import Lean.Data.Json
 import DL.Model.Regex
 
-/-! driver glue for M-RX: `runRx` answers one `{"m":"rx", ...}` request -/
+/-! driver glue for M-RX: `runRx` answers one `{"m":"rx","seq":[{"p":<pattern>,"f":<flags>},...]}` request = the
+regexes of one file in source order, all checked by ONE validator starting from `EcmaRegexValidator::new`.
+Answer: `{"reported":[..],"panic":b,"fuel":b}`.  Optional request keys: `"oc": false` selects wrapping arithmetic
+(plain release profile) instead of `overflow-checks`; `"dbg": true` adds `"why"` (panic site) to the answer. -/
 open Lean (Json)
 namespace DL.Rx
 
-def runRx (_j : Json) : Except String Json := throw "rx model not implemented yet"
+def runRx (j : Json) : Except String Json := do
+  let seq ← (← j.getObjVal? "seq").getArr?
+  let items ← seq.toList.mapM fun it => do
+    let p ← (← it.getObjVal? "p").getStr?
+    let f ← (← it.getObjVal? "f").getStr?
+    pure (ofString p, ofString f)
+  let oc := match j.getObjVal? "oc" with
+    | .ok (.bool b) => b
+    | _ => true
+  let dbg := match j.getObjVal? "dbg" with
+    | .ok (.bool b) => b
+    | _ => false
+  let r := runSeq items { St.new with overflowChecks := oc }
+  let base : List (String × Json) :=
+    [("reported", Json.arr (r.reported.map Json.bool).toArray), ("panic", Json.bool r.panic), ("fuel", Json.bool r.fuel)]
+  let extra : List (String × Json) :=
+    if dbg then [("why", match r.why with | some w => Json.str w | none => Json.null)] else []
+  pure (Json.mkObj (base ++ extra))
 
 end DL.Rx
